@@ -216,6 +216,44 @@ def rule_finalize(ctx):
     ctx.floor(rid + ".owners", 2)
 
 
+def rule_symbol_refill(ctx):
+    """every symbol read goes through the table reader, which is what refills the bit buffer"""
+    from ..mirutil import find_path_edges
+    rid = "R-SYMBOL-REFILL"
+    ctx.rule(rid, "Coder::read_symbol is followed by read_uint_prefilled, which takes the raw bits of a hybrid integer with "
+                  "peek_bits_prefilled / consume_bits - readers that do not refill the bit buffer and rely on the symbol read having "
+                  "done so.  Every path of Coder::read_symbol to a normal return therefore passes through prefix::Histogram::read_symbol or "
+                  "ans::Histogram::read_symbol (or another Bitstream read); a shortcut that returns a symbol without touching the "
+                  "stream (single-symbol histograms) lets consecutive raw-bit reads run the buffer dry: a spurious end-of-data on a "
+                  "valid stream")
+    f = ctx.prog.crate("jxl_coding").fn("jxl_coding::Coder::read_symbol")
+    if f is None:
+        ctx.anchor_missing(rid, "jxl_coding::Coder::read_symbol")
+        return
+    ctx.seen(f)
+    readers = {b for b, t in f.calls() if callee(t) and (callee(t)["fn"].endswith("Histogram::read_symbol")
+                                                          or ("Bitstream" in callee(t)["fn"] and callee(t)["fn"].split("::")[-1] in
+                                                              ("read_bits", "peek_bits", "refill", "peek_bits_const", "read_bool")))}
+    symbol_readers = {b for b, t in f.calls() if callee(t) and callee(t)["fn"].endswith("Histogram::read_symbol")}
+    ctx.count(rid + ".table-readers", len(symbol_readers))
+    if not symbol_readers:
+        ctx.anchor_missing(rid, "calls of Histogram::read_symbol in Coder::read_symbol")
+        return
+    rets = [b for b, blk in enumerate(f.blocks) if not blk[2] and blk[1][0] == "ret"]
+    # an error exit (`?` on the ANS state initialisation: FromResidual::from_residual, or an explicit Err) is a legitimate way out
+    # without a symbol; MIR funnels all exits into one return block, so the error-propagation blocks are avoided rather than the return
+    from .. import validation
+    errs = set(validation.err_return_blocks(f))
+    errs |= {b for b, t in f.calls() if callee(t) and callee(t)["fn"].endswith("FromResidual::from_residual")}
+    p = find_path_edges(f, [0], lambda x: x in rets, avoid_block=lambda x: x in symbol_readers or x in errs)
+    if p is None:
+        ctx.ok(rid, "every-symbol-through-table-reader", "%d table readers; no successful return bypasses them" % len(symbol_readers), nontrivial=True, fn=f)
+    else:
+        ctx.bad(rid, "symbol-without-stream-read", "Coder::read_symbol can return a symbol without calling Histogram::read_symbol: nothing "
+                "refills the bit buffer before the raw bits of the hybrid integer are taken", fn=f, path=p)
+    ctx.floor(rid + ".table-readers", 2)
+
+
 def main(pid, tier, repo=None):
     ctx = Ctx(pid, tier, configs=("workspace",), repo=repo)
     specconst.run(ctx, pid, floor=2)
@@ -223,6 +261,7 @@ def main(pid, tier, repo=None):
     rule_lz77_window(ctx)
     rule_single_token(ctx)
     rule_finalize(ctx)
+    rule_symbol_refill(ctx)
     ctx.not_decided("that decoding returns exactly the encoded sequence and consumes exactly the encoded bits for every distribution set "
                     "(alias table construction, two-level prefix tables, hybrid-integer expansion, RLE / single-token shortcuts): value-level")
     return ctx.finish(
